@@ -55,7 +55,9 @@ def register(reg):
                      "2": LoopSpec(inv=[SHAPES, good(), tight(), tri("b - a < diag"), untouched("b - a >= diag")]),
                      "2.1": LoopSpec(inv=[SHAPES, good(), tight(), tri("b - a < diag or (b - a == diag and a < i)"),
                                           untouched("b - a > diag or (b - a == diag and a >= i)")],
-                                     ),
+                                     # (hints see the loop index already advanced: the row just finished is i - 1)
+                                     hints=["all(implies(a == i - 1 and b == a + diag, all(%s for q in range(a + 1, b))) %s)"
+                                            % (better("D[a, b]", "D[a, q] + D[q, b]"), CELLS)]),
                      "2.1.1": LoopSpec(inv=[SHAPES, good(), tight(), tri("b - a < diag or (b - a == diag and a < i)"),
                                             untouched("b - a > diag or (b - a == diag and a > i)"),
                                             # the cell being minimised, stated over (a, b) with arithmetic guards so that
@@ -150,6 +152,16 @@ def sf_opt_lemma(ex, st, c, d, N, mode):
     return vbool(z3.Implies(z_goodtri(cv, dv, to_int(N), to_int(mode)), z_optimal(cv, dv, to_int(N), to_int(mode))))
 
 
+def sf_goodtri(ex, st, c, d, N, mode):
+    """premise of lemma optimal-over-all-lists, in exactly the lemma's own form"""
+    return vbool(z_goodtri(_cost_arr(c), _cost_arr(d), to_int(N), to_int(mode)))
+
+
+def sf_lists_bounded(ex, st, c, d, N, mode):
+    """conclusion of lemma optimal-over-all-lists, in exactly the lemma's own form"""
+    return vbool(z_optimal(_cost_arr(c), _cost_arr(d), to_int(N), to_int(mode)))
+
+
 def sf_no_list_better(ex, st, c, l, N, mode):
     """every strictly increasing list of candidates from 0 to N-1 costs no better than the list l"""
     cv = _cost_arr(c)
@@ -194,7 +206,7 @@ def tightB():
 
 def register2(reg):
     reg.specfuncs.update(pathcost=sf_pathcost, pc_concat=sf_pc_concat, pc_prefix=sf_pc_prefix, opt_lemma=sf_opt_lemma,
-                         no_list_better=sf_no_list_better)
+                         no_list_better=sf_no_list_better, goodtri=sf_goodtri, lists_bounded=sf_lists_bounded)
     reg.axioms.append(("pathcost", ax_pathcost))
     G = dict(C="arr2[float]", D="arr2[float]")
     SHP = ["B.shape[0] == B.shape[1]", "C.shape[0] >= B.shape[0] and C.shape[1] >= B.shape[0]", "D.shape[0] == B.shape[0] and D.shape[1] == B.shape[0]",
@@ -235,7 +247,9 @@ def register(reg):  # noqa: F811
     register2(reg)
     sp = reg.specs[S + "optimalPartition"]
     sp.ghost_calls = {"backward": {"C": "cost_matrix", "D": "D"}}
-    sp.hints = ["use opt_lemma(cost_matrix, D, N, mode)"]
+    sp.hints = [("lemma-premise", "goodtri(cost_matrix, D, N, mode)"),
+                "use opt_lemma(cost_matrix, D, N, mode)",
+                ("lemma-conclusion", "lists_bounded(cost_matrix, D, N, mode)")]
     sp.ensures += [("from-first-to-last-candidate", "len(result) >= 2 and result[0] == 0 and result[len(result) - 1] == N - 1"),
                    ("strictly-increasing", "all(result[t] < result[t + 1] for t in range(0, len(result) - 1))"),
                    ("cost-is-the-dp-value", "pathcost(cost_matrix, result, len(result)) == D[0, N - 1]"),
